@@ -308,6 +308,9 @@ def run(ctx):
     # ---- beyond the listed property: the front end (spec/Front.tla: watchers, sticky assignment, overload)
     from harness import front
     front.check(ctx, quick)
+    # ---- and the progress dictionary that qsetinfo ships (spec/Progress.tla: mwlib.utils.status.Status)
+    from harness import progress
+    progress.check(ctx, quick)
     ctx.assume("header safety is a character-level predicate evaluated by the harness on concrete filenames, not by TLC",
                "the RPC layer is replaced by an in-process proxy with a JSON round trip",
                "assumptions of C16-C18 about the queue driver")
